@@ -462,6 +462,16 @@ pub fn driver_main(check: &dyn Check, tier: Tier, seed: u64, replay_idx: Option<
     let cap = Duration::from_secs(check.case_cap_s(tier));
     let mut suspects: Vec<(u64, &'static str)> = vec![];
 
+    if replay_idx.is_none() {
+        // stale replay files of earlier runs of this property
+        if let Ok(rd) = std::fs::read_dir(format!("{VERIF_DIR}/replays")) {
+            for e in rd.flatten() {
+                if e.file_name().to_string_lossy().starts_with(&format!("{id}-")) {
+                    std::fs::remove_file(e.path()).ok();
+                }
+            }
+        }
+    }
     if let Some(idx) = replay_idx {
         match run_alone(id, tier, seed, idx, cap * 10) {
             Ok(v) => agg.absorb(&v),
